@@ -62,6 +62,8 @@ void vp_free_now(void *) {}
 int  vp_mutex_held(const void *) { return 1; }
 int  vp_threads_alive(void) { return 0; }
 void vp_yield(void) {}
+void vp_concolic_stop(void) {}
+uint64_t vp_concrete(uint64_t v) { return v; }
 void vp_watch(const void *, uint64_t, const char *) {}
 }
 
